@@ -363,7 +363,7 @@ class Rat:
             for a in list(keepd):
                 mn = min((dict(mm).get(a, 0) for mm in n.t), default=0)
                 k = min(mn, keepd[a])
-                if k and _ATOM_LIST[a][0] == "s" and a != I_ATOM:
+                if k and a != I_ATOM:
                     n = Poly({_mono_drop(mm, a, k): cc for mm, cc in n.t.items()})
                     keepd[a] -= k
                     if not keepd[a]:
